@@ -1,6 +1,7 @@
 import EtVerif.Props.C08
 import EtVerif.Props.TrC08
 import EtVerif.Props.TrGo08
+import EtVerif.Props.TrGo08c
 #print axioms EtVerif.C08.extract_split
 #print axioms EtVerif.C08.extract_signs
 #print axioms EtVerif.C08.extract_disjoint
@@ -39,3 +40,4 @@ import EtVerif.Props.TrGo08
 #print axioms EtVerif.TrGo08.go_discount_zero_rep
 #print axioms EtVerif.TrGo08.go_discount_zero_rep_exact
 #print axioms EtVerif.TrGo08.go_discount_zero_rep_set_exact
+#print axioms EtVerif.TrGo08c.go_extract_then_discount
